@@ -367,6 +367,48 @@ func runC15(r *rt.Run, tier string) {
 		r.Probe("iteration-ended-in-eof")
 	}
 
+	// the same (intact) package loaded again and again: closed twice, then by two
+	// callers at once - every load must list the same payload
+	if target == "deb" && t.Bool(1, 3, "c15.reload") {
+		listing := func(res *string) func() {
+			return func() {
+				d, err := deb.Load(simdisk.New(r, "deb", img), "x.deb")
+				if err != nil {
+					*res = "load error: " + err.Error()
+					return
+				}
+				files, ferr := readDataTar(d.Data)
+				names := []string{}
+				for _, f := range files {
+					names = append(names, fmt.Sprintf("%s/%d", f.Name, len(f.Body)))
+				}
+				*res = fmt.Sprintf("%v err=%v", names, ferr)
+				d.Close()
+			}
+		}
+		var ref, a, b string
+		if tk := r.Solo("reload-ref", listing(&ref)); tk.Panic != nil {
+			r.Violate("C15/panic", "deb.Load/reload", "panic: %v", tk.Panic)
+			return
+		}
+		r.Solo("double-close", func() {
+			if d, err := deb.Load(simdisk.New(r, "deb", img), "x.deb"); err == nil {
+				d.Close()
+				d.Close()
+			}
+		})
+		ta := r.Go("RA", listing(&a))
+		tb := r.Go("RB", listing(&b))
+		r.Sched()
+		r.Probe("package-reloaded-after-double-close")
+		if ta.Panic != nil || tb.Panic != nil {
+			r.Violate("C15/panic", "deb.Load/reload", "panic while the same package was loaded by two callers: %v %v", ta.Panic, tb.Panic)
+			return
+		}
+		if a != ref || b != ref {
+			r.Violate("C15/nondeterministic-outcome", "deb.Load/reload-after-double-close", "the same bytes: first load lists %s; after a package was closed twice, two concurrent loads list %s and %s", clip(ref, 200), clip(a, 200), clip(b, 200))
+		}
+	}
 	// the .deb loader, several times under different member orders
 	var first debOutcome
 	for i := 0; i < 3; i++ {
@@ -411,5 +453,5 @@ func init() {
 		},
 		Assumptions: []string{"inputs are structured corruptions of valid archives and raw bytes drawn from a header-like alphabet; coverage-guided fuzzing (named in the property's quantifier) is a different technique and is not used", "only stored and gzip members are damaged for deb.Load, as the statement excludes the third-party decoders on hostile streams"},
 	})
-	propProbes["C15"] = []string{"two-archives-iterated-concurrently", "reader-fails-beyond-the-end-with-a-non-EOF-error", "reader-with-sequential-state", "iteration-ended-in-error", "iteration-ended-in-eof", "damaged-package-still-loads"}
+	propProbes["C15"] = []string{"package-reloaded-after-double-close", "two-archives-iterated-concurrently", "reader-fails-beyond-the-end-with-a-non-EOF-error", "reader-with-sequential-state", "iteration-ended-in-error", "iteration-ended-in-eof", "damaged-package-still-loads"}
 }
